@@ -219,6 +219,25 @@ impl Default for SplineOpts {
     }
 }
 
+/// make the per-lane selections constant along the last trailing axis (`last`) or along the first one
+fn equal_along(v: &mut [LaneSel], trailing: &[usize], last: bool) {
+    let lanes = v.len();
+    if lanes == 0 || trailing.len() < 2 {
+        return;
+    }
+    if last {
+        let b = *trailing.last().unwrap();
+        for l in 0..lanes {
+            v[l] = v[(l / b.max(1)) * b.max(1)].clone();
+        }
+    } else {
+        let inner = (lanes / trailing[0].max(1)).max(1);
+        for l in 0..lanes {
+            v[l] = v[l % inner].clone();
+        }
+    }
+}
+
 impl SplineCase {
     pub fn gen<T: Flt>(src: &mut Src, o: &SplineOpts) -> SplineCase {
         if o.stress && o.max_trailing_axes >= 1 && src.chance(1, 40) {
@@ -286,6 +305,9 @@ impl SplineCase {
                                     }
                                 }
                             }
+                            // selections that depend on one trailing axis only (constant along the last / along the first)
+                            2 if trailing.len() >= 2 => equal_along(&mut v, &trailing, true),
+                            3 if trailing.len() >= 2 => equal_along(&mut v, &trailing, false),
                             _ => {}
                         }
                     }
@@ -339,9 +361,13 @@ impl SplineCase {
                 2 => BcSel::Clamped,
                 _ => {
                     let mut v: Vec<LaneSel> = (0..lanes).map(|_| lane_sel::<T>(&mut s2, scale_e, h_typ)).collect();
-                    if s2.chance(1, 4) {
-                        let f = v[0].clone();
-                        v.iter_mut().for_each(|s| *s = f.clone());
+                    match s2.below(4) {
+                        0 => {
+                            let f = v[0].clone();
+                            v.iter_mut().for_each(|s| *s = f.clone());
+                        }
+                        1 | 2 if trailing.len() >= 2 => equal_along(&mut v, &trailing, s2.bool()),
+                        _ => {}
                     }
                     BcSel::Individual(v)
                 }
@@ -385,6 +411,11 @@ impl SplineCase {
         if let BcSel::Individual(v) = &self.bc {
             if v.len() >= 2 && v.iter().all(|s| *s == v[0]) {
                 out.class("bc:Individual/all-rows-equal");
+            } else if self.trailing.len() >= 2 {
+                let b = *self.trailing.last().unwrap();
+                if b >= 2 && (0..v.len()).all(|l| v[l] == v[(l / b) * b]) {
+                    out.class("bc:Individual/equal-along-last-axis");
+                }
             }
         }
         out.class(match self.n {
